@@ -456,11 +456,14 @@ def ddmin(items, fails):
     return items
 
 
-def run_io(fa, text):
-    """FileAnonymizer.anonymize_io on a string."""
+def run_io(fa, text, nonl=False):
+    """FileAnonymizer.anonymize_io on a string.  nonl: the input is fed WITHOUT its final newline (a
+    file whose last line is unterminated); the terminator is put back on the result, so the caller's
+    oracle is the same as for terminated input."""
     out = io.StringIO()
-    fa.anonymize_io(io.StringIO(text, newline=""), out)
-    return out.getvalue()
+    cut = nonl and text.endswith("\n") and not text.endswith("\r\n")
+    fa.anonymize_io(io.StringIO(text[:-1] if cut else text, newline=""), out)
+    return out.getvalue() + ("\n" if cut else "")
 
 
 def now():
